@@ -185,6 +185,7 @@ pub fn cases(tier: Tier) -> Vec<GCase> {
     let mut push = |g: Gadget, e: Expect, class: &str| {
         let mut c = GCase::new(g, e, class);
         c.bound2 = true;
+        c.rewire = true;
         out.push(c);
     };
     // gate_add / gate_mul / append_evaluated_output
